@@ -276,7 +276,10 @@ impl<'a> Model<'a> {
     /// right fixity, otherwise the text would not tokenize into this tree
     fn check_parsable(&self, e: &Expr) -> Result<(), Stop> {
         match e {
-            Expr::Un(op, _) if !self.reg.prefix.contains_key(op) => {
+            // the parser turns ANY operator token in prefix position into a Unary node
+            Expr::Un(op, _)
+                if !self.reg.prefix.contains_key(op) && !self.reg.infix.contains_key(op) && !self.reg.postfix.contains_key(op) =>
+            {
                 return Err(Stop::Unmodelled(format!("prefix operator {} unknown to the model", op)))
             }
             Expr::Bin(op, _, _) if !self.reg.infix.contains_key(op) => {
@@ -428,7 +431,7 @@ impl<'a> Model<'a> {
             self.log.push(Ev::Act { hid, task, idx, res });
         }
         if let Some(f) = &self.case.fault {
-            if f.task == task && f.k == k {
+            if f.hits(task, k) {
                 self.log.push(Ev::Fault { hid, task, kind: f.kind });
                 return Err(match f.kind {
                     FaultKind::Err => Stop::Err("injected".to_string()),
@@ -486,7 +489,7 @@ impl<'a> Model<'a> {
                 }
             }
             Expr::Un(op, x) => {
-                let imp = self.reg.prefix.get(op).cloned().ok_or_else(|| Stop::Unmodelled(format!("prefix {}", op)))?;
+                let imp = self.reg.prefix.get(op).cloned().ok_or_else(|| Stop::Err(format!("prefix operator {} not registered", op)))?;
                 let v = self.eval(x, ctx)?;
                 match imp {
                     Impl::H(h) => self.invoke(h, vec![v]),
@@ -558,13 +561,24 @@ impl<'a> Model<'a> {
         self.desc.get(&(kind, if kind.named() { name.to_string() } else { String::new() })).copied()
     }
 
+    /// what a marker descriptor renders: `<id|parts>`; a re-entrant one (id >= REENTRANT_DESC)
+    /// additionally describes the inner program `inner_q` from inside the descriptor
+    fn mark(&self, id: usize, parts: String) -> String {
+        if id >= crate::case::REENTRANT_DESC {
+            let inner = self.describe(&rf("inner_q"));
+            format!("<{}|{}|{}>", id, parts, inner)
+        } else {
+            format!("<{}|{}>", id, parts)
+        }
+    }
+
     pub fn describe_stmts(&self, stmts: &[Expr]) -> String {
         if stmts.len() == 1 {
             return self.describe(&stmts[0]);
         }
         let parts: Vec<String> = stmts.iter().map(|s| self.describe(s)).collect();
         match self.d(DKind::Chain, "") {
-            Some(id) => format!("<{}|{}>", id, parts.join("|")),
+            Some(id) => self.mark(id, format!("{}", parts.join("|"))),
             None => parts.join(";"),
         }
     }
@@ -576,48 +590,48 @@ impl<'a> Model<'a> {
             Expr::Lit(Val::Str(s)) => format!("\"{}\"", s),
             Expr::Lit(_) => unreachable!(),
             Expr::Ref(n) => match self.d(DKind::Reference, n) {
-                Some(id) => format!("<{}|{}>", id, n),
+                Some(id) => self.mark(id, format!("{}", n)),
                 None => n.clone(),
             },
             Expr::Call(n, args) => {
                 let parts: Vec<String> = args.iter().map(|a| self.describe(a)).collect();
                 match self.d(DKind::Function, n) {
-                    Some(id) => format!("<{}|{}|{}>", id, n, parts.join("|")),
+                    Some(id) => self.mark(id, format!("{}|{}", n, parts.join("|"))),
                     None => format!("{}({})", n, parts.join(",")),
                 }
             }
             Expr::Un(op, x) => {
                 let r = self.describe(x);
                 match self.d(DKind::Unary, op) {
-                    Some(id) => format!("<{}|{}|{}>", id, op, r),
+                    Some(id) => self.mark(id, format!("{}|{}", op, r)),
                     None => format!("{}{}", op, r),
                 }
             }
             Expr::Post(x, op) => {
                 let l = self.describe(x);
                 match self.d(DKind::Postfix, op) {
-                    Some(id) => format!("<{}|{}|{}>", id, l, op),
+                    Some(id) => self.mark(id, format!("{}|{}", l, op)),
                     None => format!("{}{}", l, op),
                 }
             }
             Expr::Bin(op, l, r) => {
                 let (l, r) = (self.describe(l), self.describe(r));
                 match self.d(DKind::Binary, op) {
-                    Some(id) => format!("<{}|{}|{}|{}>", id, op, l, r),
+                    Some(id) => self.mark(id, format!("{}|{}|{}", op, l, r)),
                     None => format!("{}{}{}", l, op, r),
                 }
             }
             Expr::Tern(c, a, b) => {
                 let (c, a, b) = (self.describe(c), self.describe(a), self.describe(b));
                 match self.d(DKind::Ternary, "") {
-                    Some(id) => format!("<{}|{}|{}|{}>", id, c, a, b),
+                    Some(id) => self.mark(id, format!("{}|{}|{}", c, a, b)),
                     None => format!("{}?{}:{}", c, a, b),
                 }
             }
             Expr::List(xs) => {
                 let parts: Vec<String> = xs.iter().map(|a| self.describe(a)).collect();
                 match self.d(DKind::List, "") {
-                    Some(id) => format!("<{}|{}>", id, parts.join("|")),
+                    Some(id) => self.mark(id, format!("{}", parts.join("|"))),
                     None => format!("[{}]", parts.join(",")),
                 }
             }
@@ -625,7 +639,7 @@ impl<'a> Model<'a> {
                 let parts: Vec<(String, String)> = xs.iter().map(|(k, v)| (self.describe(k), self.describe(v))).collect();
                 match self.d(DKind::Map, "") {
                     Some(id) => {
-                        format!("<{}|{}>", id, parts.iter().map(|(k, v)| format!("{}=>{}", k, v)).collect::<Vec<_>>().join("|"))
+                        self.mark(id, format!("{}", parts.iter().map(|(k, v)| format!("{}=>{}", k, v)).collect::<Vec<_>>().join("|")))
                     }
                     None => format!("{{{}}}", parts.iter().map(|(k, v)| format!("{}:{}", k, v)).collect::<Vec<_>>().join(",")),
                 }
